@@ -174,6 +174,7 @@ class Ctx:
                 "case": jsonable(case),
                 "detail": jsonable(detail),
                 "count": 1,
+                "indi_log_level": _logging.getLevelName(_logging.getLogger("indi").level),
             }
         else:
             v["count"] += 1
@@ -249,6 +250,11 @@ def load_module(prop):
 
 def run_module(mod, ctx):
     from vf.reach import Reach
+    # the library's logging configuration is a dimension of every workload: every second worker runs with the `indi`
+    # loggers at DEBUG (records are counted by LogCounter, never printed), the others at INFO
+    debug = ctx.nshards > 1 and ctx.shard is not None and ctx.shard % 2 == 1
+    _logging.getLogger("indi").setLevel(_logging.DEBUG if debug else _logging.INFO)
+    ctx.counters["workers_with_indi_logging_at_" + ("DEBUG" if debug else "INFO")] = 1
     reach = Reach(REPO)
     reach.start()
     try:
@@ -382,6 +388,7 @@ def report(ctx, write_replays=True):
             path = os.path.join(REPLAY_DIR, f"{ctx.prop}-{tag[:10]}.json")
             with open(path, "w") as f:
                 json.dump({"property": ctx.prop, "seed": ctx.seed, "tier": ctx.tier, "key": key,
+                           "indi_log_level": v.get("indi_log_level", "INFO"),
                            "what": v["what"], "case": v["case"], "detail": v["detail"],
                            "count": v["count"]}, f, indent=1, ensure_ascii=True)
                 f.write("\n")
@@ -441,6 +448,7 @@ def main(argv):
         with open(a.replay) as f:
             rep = json.load(f)
         ctx = Ctx(a.prop, rep.get("tier", "quick"), rep.get("seed", seed), replaying=True)
+        _logging.getLogger("indi").setLevel(getattr(_logging, str(rep.get("indi_log_level", "INFO")), _logging.INFO))
         try:
             mod.replay(ctx, rep["case"])
         except Inconclusive as e:
